@@ -14,6 +14,8 @@ Seed corpus of valid encodings x {every truncation, every single-byte replacemen
 
 import asyncio
 import itertools
+import os
+import shutil
 import time
 
 import asyncssh
@@ -521,6 +523,62 @@ def sftp_hostile_worker(job):
     return acc
 
 
+def copydata_worker(_job):
+    """SFTP copy-data requests on one file a little longer than a copy block: both handles the same (and two handles of the same file), every
+    combination of read offset / length (0 = to end of file) / write offset from a small grid incl. 2^63: the
+    request is answered within the work budget and the file does not grow beyond write offset + what there was to
+    copy (a copy that feeds on its own output must stop).  The file size limit of the worker process is lowered
+    to 1 MiB while this runs, so that a runaway copy hits a wall instead of the disk."""
+    import resource
+    import signal
+    import struct
+    import c14
+    acc = core.Acc()
+    root = os.path.join(c14.SCRATCH, 'copydata-%d' % os.getpid())
+    soft, hard = resource.getrlimit(resource.RLIMIT_FSIZE)
+    old_handler = signal.signal(signal.SIGXFSZ, signal.SIG_IGN)
+    resource.setrlimit(resource.RLIMIT_FSIZE, (1 << 20, hard))
+    u64 = lambda n: struct.pack('>Q', n)
+    sb = lambda b: struct.pack('>I', len(b)) + b
+    from asyncssh.sftp import _COPY_DATA_BLOCK_SIZE as BLK
+    FSZ = BLK + 10                  # a file of more than one copy block
+    try:
+        for v in (3, 6):
+            for ro in (0, 2, BLK, FSZ, FSZ + 1, 2 ** 63):
+                for ln in (0, 2, BLK, FSZ, 2 ** 64 - 1):
+                    for wo in (0, 1, 5, BLK, FSZ, FSZ + 2, 2 ** 40):
+                        c14._mkroot(root)
+                        with open(os.path.join(root, 'f'), 'wb') as f_:
+                            f_.write(b'q' * FSZ)
+                        body = sb(b'copy-data') + sb(b'@FILE@') + u64(ro) + u64(ln) + sb(b'@FILE@') + u64(wo)
+                        viol = []
+                        try:
+                            replies, _h, ended, lexc = c14.server_session(v, root, asyncssh.SFTPServer, [(200, 77, body), (17, 99, sb(b'f2') + (b'\0\0\0\0' if v >= 4 else b''))])
+                        except Livelock as exc:
+                            replies, lexc = [], []
+                            viol.append(('livelock', str(exc)))
+                        size = os.path.getsize(os.path.join(root, 'f'))
+                        avail = max(0, FSZ - ro)
+                        want_max = max(FSZ, wo + (avail if ln == 0 else min(ln, avail)))
+                        if wo < 2 ** 30 and size > want_max:
+                            viol.append(('copy-feeds-on-itself', 'file of %d bytes is %d bytes after copy-data(read %d, length %d, write %d)' % (FSZ, size, ro, ln, wo)))
+                        r77 = [p_ for p_ in replies if len(p_) >= 5 and struct.unpack('>I', p_[1:5])[0] == 77]
+                        r99 = [p_ for p_ in replies if len(p_) >= 5 and struct.unpack('>I', p_[1:5])[0] == 99]
+                        if not viol and (len(r77) != 1 or len(r99) != 1):
+                            viol.append(('reply-count', 'copy-data got %d replies, the following stat %d' % (len(r77), len(r99))))
+                        if lexc:
+                            viol.append(('loop-exception', repr(lexc[0].get('exception') or lexc[0].get('message'))[:200]))
+                        acc.add(core.digest(('copydata', v, ro, ln, wo, size)), transitions=2,
+                                sample={'copy_data': {'read_offset': ro, 'length': ln, 'write_offset': wo, 'size_after': size}} if (v, ro, ln, wo) == (3, 0, 0, 5) else None)
+                        for k, d in viol:
+                            acc.violation('sftpserver:%s:copy-data' % k, '%s ; v%d' % (d, v), {'kind': 'copydata'})
+    finally:
+        resource.setrlimit(resource.RLIMIT_FSIZE, (soft, hard))
+        signal.signal(signal.SIGXFSZ, old_handler)
+        shutil.rmtree(root, ignore_errors=True)
+    return acc
+
+
 def nesting_worker(_job):
     """DER values nested 10 .. 50000 deep (SEQUENCE, SET, context tags; definite lengths) given to der_decode and to
     the key / certificate importers, raw and PEM-armoured: a value or the documented error -- the depth of the
@@ -635,6 +693,7 @@ def run(tier, seed):
     acc.merge(core.pmap(sftp_hostile_worker, [[i] for i in range(len(sftp_calls()))]))
     acc.merge(core.pmap(sftp_version_worker, [0]))
     acc.merge(core.pmap(nesting_worker, [0]))
+    acc.merge(core.pmap(copydata_worker, [0]))
     return acc
 
 
@@ -642,6 +701,8 @@ def replay(r):
     acc = core.Acc()
     if r['kind'] == 'socks':
         return socks_worker([(bytes.fromhex(r['blob']), r['split'])])
+    if r['kind'] == 'copydata':
+        return copydata_worker(0)
     if r['kind'] == 'nesting':
         return nesting_worker(0)
     if r['kind'] == 'sftp-version':
